@@ -174,6 +174,11 @@ class Explorer:
             except PathEnd:
                 c.ghost["ended"] = "pathend"
             finally:
+                for cm in c.ghost.get("gen_cms", []):
+                    try:
+                        cm.kill()
+                    except Exception:
+                        pass
                 sym.set_ctx(None)
             done.append(c)
             work.extend(c.new_prefixes)
